@@ -361,6 +361,14 @@ class Ctx:
             cov.update(extra_cov)
         if not cov["samples"]:
             cov["samples"] = ["(no sample recorded)"]
+        # states TLC explored while validating traces (one per consumed event and branch)
+        cov["trace_states"] = sum(t.get("states", 0) for t in cov.get("trace_runs", []))
+        if cov.get("states", 0) == 0:
+            # no design-level model-checking run in this check: TLC's work is the trace validation
+            cov["states"] = cov["trace_states"]
+            cov["transitions"] = cov["trace_states"]
+        if not isinstance(cov.get("exhaustive", False), bool):
+            cov["exhaustive_note"] = cov.pop("exhaustive")
         cov["known_findings_hit"] = sorted({k for k, _ in self.known_hits})
         ev = {
             "property_id": self.pid,
